@@ -432,7 +432,48 @@ def class_tables():
            "", "end MV", ""]
     return "\n".join(out), {"offsets": [fun_off, var_off, other_off], "init": [init_after, init_default], "ranks": ranks}
 
-TABLES = {"ClassTables": class_tables, "LexTables": lex_tables, "CoreTables": core_tables, "ConvertTables": convert_tables, "AnnotateTables": annotate_tables}
+
+# ------------------------------------------------------------------------------------------------
+# Operator definitions -> Python special method names (parse/definition.rs, parse/ast/node_op.rs,
+# check/context/function/python.rs, generate/ast/node.rs)
+# ------------------------------------------------------------------------------------------------
+def op_tables():
+    consts = dict(re.findall(r'pub const ([A-Z_]+): &str = "([^"]*)";', read("src/check/context/function/python.rs")))
+    consts.update(dict(re.findall(r'pub const ([A-Z_]+): &str = "([^"]*)";', read("src/check/context/function/mod.rs"))))
+    tok = read("src/parse/lex/token.rs")
+    spell = dict(re.findall(r'Token::([A-Za-z0-9]+)\s*=>\s*write!\(f,\s*"((?:[^"\\]|\\.)*)"\)', tok))
+    d = read("src/parse/definition.rs")
+    arms = re.findall(r"Token::([A-Za-z]+) => op!\(it, ([A-Za-z]+)\),", d)
+    if len(arms) < 8:
+        raise TranslateError("definition.rs: operator definition arms not found")
+    nop = read("src/parse/ast/node_op.rs")
+    disp = dict(re.findall(r'NodeOp::([A-Za-z]+) => write!\(f, "\{([A-Z_]+)\}"\),', nop))
+    node = read("src/generate/ast/node.rs")
+    fun_from = dict((c, v) for c, v in re.findall(r"function::python::([A-Z_]+) => CoreFunOp::([A-Za-z]+),", node))
+    fun_disp = dict((v, c) for v, c in re.findall(r"CoreFunOp::([A-Za-z]+) => function::python::([A-Z_]+),", node))
+    rows = []
+    for token, nodeop in arms:
+        if token not in spell:
+            raise TranslateError(f"definition.rs: unknown token {token}")
+        if nodeop not in disp:
+            raise TranslateError(f"node_op.rs: no Display constant for NodeOp::{nodeop}")
+        const = disp[nodeop]
+        if const not in consts:
+            raise TranslateError(f"function/python.rs: constant {const} not found")
+        ident = consts[const]                      # the identifier of the parsed definition
+        # generate stage: CoreFunOp::from(identifier) and its Display
+        emitted = ident
+        for c, v in fun_from.items():
+            if consts.get(c) == ident:
+                emitted = consts[fun_disp[v]] if v in fun_disp else ident
+        rows.append((spell[token].replace("{{", "{").replace("}}", "}"), emitted))
+    out = ["-- GENERATED by tools/translate.py from parse/definition.rs, parse/ast/node_op.rs, check/context/function/{python,mod}.rs, generate/ast/node.rs — do not edit",
+           "namespace MV", "", "/-- operator spelling in a Mamba definition ↦ name of the emitted Python method -/",
+           "def opMethodTable : List (String × String) := ["]
+    out += [",\n".join(f'  ("{a}", "{b}")' for a, b in rows), "]", "", "end MV", ""]
+    return "\n".join(out), {"rows": rows}
+
+TABLES = {"OpTables": op_tables, "ClassTables": class_tables, "LexTables": lex_tables, "CoreTables": core_tables, "ConvertTables": convert_tables, "AnnotateTables": annotate_tables}
 
 
 def main(argv):
